@@ -61,6 +61,10 @@ PROGRAMS = {
     # a main body stuck in C code for good (the termination request is swallowed), no patience with it (cancel_timeout_s = 0)
     'stuck': {'nodes': [G([P(1)], [dict(P(2), timeout_s=0.4, beh=[{'raw': 'cont', 'sleep': 1000000.0, 'unkillable': True}])], [P(3)]), P(4)],
               'conf': {'cancel_timeout_s': 0}},
+    # phases with phase diagnosers: an invocation cut short by the abort is not diagnosed
+    'diag': {'nodes': [dict(P(1), beh=[{'raw': 'cont', 'sleep': 0.02, 'steps': 3, 'diags': [[[1, False]]]}]),
+                       G([], [dict(P(2), beh=[{'raw': 'cont', 'sleep': 0.02, 'steps': 3, 'diags': [[[2, False]], [[3, False]]]}])],
+                         [P(3)])]},
     'tdrepeat': {'nodes': [G([], [P(1)], [dict(P(2), opts={'limit': 2}, beh=[{'raw': 'rep', 'sleep': 0.02, 'steps': 2},
                                                                                   {'raw': 'cont', 'sleep': 0.02, 'steps': 2}]), P(3)])]},
 }
@@ -368,6 +372,7 @@ def run_real(case):
     kinds[prog['start']['id']] = 'x'
   toks = []
   lost_sigint = []
+  diag_on_killed = []
   ex = None
   nac = nar = 0
   for pos, (th, op, obj, extra) in enumerate(s.events):
@@ -381,6 +386,11 @@ def run_real(case):
       elif e.startswith('ee'):
         pid = int(e[2:].split('.')[0])
         toks.append((pos, 'be:%d:%s' % (pid, e.split(':')[1])))
+      elif e.startswith('ed'):
+        # a phase diagnoser ran for invocation k of phase pid: not if that invocation's body was killed by the abort
+        pid, k = e[2:].split('.')[0], e[2:].split('.')[1]
+        if ('ee%s.%s:killed' % (pid, k)) in [x[3] for x in s.events if x[1] == 'h']:
+          diag_on_killed.append(pid)
       elif e.startswith('eP+'):
         toks.append((pos, 'pc:' + e[3:]))
       elif e.startswith('eP-'):
@@ -443,6 +453,16 @@ def run_real(case):
   ex = (_TRACED['executors'][-1] if case.get('rerun') else _TRACED['executors'][0]) if _TRACED['executors'] else None
   sync = _sync_tokens(s.events, ex, None)
   toks = [t for _, t in sorted(toks + sync, key=lambda x: x[0])]
+  # a phase diagnoser ran for an invocation whose body the abort killed: fine if the executor had stopped waiting for that
+  # thread before the kill surfaced (the invocation then counts as timed out, eKT), not if it saw the thread end killed
+  names = list(toks)
+  for pid in sorted(set(diag_on_killed)):
+    try:
+      i0, i1 = names.index([t for t in names if t.startswith('bs:%s:' % pid)][0]), names.index('be:%s:killed' % pid)
+    except (ValueError, IndexError):
+      continue
+    if 'eKT' not in names[i0:i1]:
+      rec_facts.append('X:phase-diagnoser-ran-on-an-invocation-the-abort-cut-short:' + pid)
   return {'toks': toks, 'outcome': outcome, 'ret': ret, 'status': status, 'need': need, 'facts': rec_facts,
           'steps': s.step, 'crashes': out['crashes']}
 
